@@ -237,8 +237,9 @@ def oracle_c11(scn, run):
                       "request %d submitted the reference %r and was answered a transaction carrying %r" % (r["req"], q.get("ref") or "", r["tx"]["reference"])))
         # a request whose reference equals, as submitted, the reference of a transaction persisted before it was answered — another
         # one than its own, not the one recorded under its idempotency key — is refused
-        if q.get("ref") and not q.get("dry"):
-            own = {lid for lid, a in prod.items() if a == r["req"]}
+        own = {lid for lid, a in prod.items() if a == r["req"]}
+        # (a request answered from the entry recorded under its idempotency key committed nothing: it is not an acceptance of its reference)
+        if q.get("ref") and not q.get("dry") and own:
             holders = [l for l in tx_logs(d[:r["durable"]]) if l["tx"]["reference"] == q["ref"] and l["id"] not in own and l["tx"]["id"] != r["tx"]["id"]]
             if holders:
                 v.append(({"class": "reference-twice", "how": "accepted-although-committed"},
